@@ -514,6 +514,30 @@ func (w *jobctlWorld) jumpToDeadline() bool {
 	return true
 }
 
+// dueCreates estimates how many pod creates the next pass will issue (creation requests of the
+// cached Job that are due now); used only to aim a fault at the status write after them.
+func (w *jobctlWorld) dueCreates() int {
+	o, ok := w.ctx.Sim().Jobs().CacheGet(&execution.Job{ObjectMeta: metav1.ObjectMeta{Namespace: "ns", Name: "job"}})
+	if !ok {
+		return 0
+	}
+	cj := o.(*execution.Job)
+	if cj.Spec.Template == nil || cj.Status.StartTime.IsZero() || cj.DeletionTimestamp != nil || cj.Spec.KillTimestamp != nil {
+		return 0
+	}
+	n := 0
+	func() {
+		defer func() { _ = recover() }()
+		reqs, _ := parallel.ComputeMissingIndexesForCreation(cj, parallel.GenerateIndexes(cj.Spec.Template.Parallelism))
+		for _, rq := range reqs {
+			if rq.Earliest.IsZero() || !rq.Earliest.After(w.clk.Now()) {
+				n++
+			}
+		}
+	}()
+	return n
+}
+
 // checkNoStaleCopy evaluates the envelope E-NoStaleCopyOnCreate of the history theorems
 // (Proofs/JobCtlInvStabInv.lean `noStaleCopyOnCreate`) at the START of a pass, in the same form as
 // the Lean hypothesis: for every creation request that ComputeMissingIndexesForCreation yields for
@@ -582,13 +606,31 @@ func (w *jobctlWorld) checkEnvelope() {
 		return
 	}
 	cj := o.(*execution.Job)
-	_, adm := jobutil.GetAdmissionErrorMessage(cj)
-	if cj.Spec.KillTimestamp == nil && !adm && cj.DeletionTimestamp == nil {
-		return
-	}
 	listed := map[string]bool{}
 	for _, r := range cj.Status.Tasks {
 		listed[r.Name] = true
+	}
+	// E-NoUnrecordedWhenFinished (Proofs/JobCtlInvStabInv.lean `noUnrecordedWhenFinished`, envelope of
+	// the stability theorems since the repair of F23): when the cached Job is recorded Finished the
+	// pod cache holds no unrecorded task of the Job.  A complete summary adopts such a task, so a
+	// Job written Finished while an unrecorded task was still invisible (status-write fault AND pod
+	// cache lag AND completion through other tasks) is un-finished when the pod reaches the cache.
+	if cj.Status.Condition.Finished != nil && cj.DeletionTimestamp == nil {
+		for _, p := range w.ownedPods() {
+			if listed[p.Name] {
+				continue
+			}
+			if _, cached := w.ctx.Sim().Pods().CacheGet(&corev1.Pod{ObjectMeta: metav1.ObjectMeta{Namespace: "ns", Name: p.Name}}); cached {
+				if !w.envelopeBroken {
+					w.c.Count("jc.envelope.unrecorded-when-finished")
+				}
+				w.envelopeBroken = true
+			}
+		}
+	}
+	_, adm := jobutil.GetAdmissionErrorMessage(cj)
+	if cj.Spec.KillTimestamp == nil && !adm && cj.DeletionTimestamp == nil {
+		return
 	}
 	for _, p := range w.ownedPods() {
 		if listed[p.Name] {
@@ -785,7 +827,16 @@ func (w *jobctlWorld) monitorCall(c sim.Call) {
 	case c.Verb == "delete" && c.Resource == "jobs" && c.Result == "ok":
 		w.c.Count("jc.job-ttl-delete")
 		w.ttlDeleteAt = w.now()
-		if !w.envelopeBroken {
+		// judged when every live task of the Job is visible to this sync (in the pod cache): an
+		// earlier moment of pod-cache lag does not excuse deleting the Job over a task the
+		// controller can see now
+		visible := true
+		for _, p := range w.ownedPods() {
+			if _, cached := w.ctx.Sim().Pods().CacheGet(&corev1.Pod{ObjectMeta: metav1.ObjectMeta{Namespace: "ns", Name: p.Name}}); !cached {
+				visible = false
+			}
+		}
+		if visible && !w.staleRecreate {
 			for _, p := range w.ownedPods() {
 				if podAlive(p) && p.DeletionTimestamp == nil {
 					w.c.Violate("C13", "ttl-not-early", "Job deleted by the controller (TTL) while its task %s is alive", p.Name)
@@ -1156,7 +1207,9 @@ func jobctlCase(c *Ctx, rng *rand.Rand) {
 	// history shape: 0 = unbiased walk; 1 = retry-focused (several indexes, several attempts,
 	// positive retry delay, mostly failing pods, deadline jumps); 2 = lag-focused (single-event
 	// deliveries, restarts and faults between the steps of a task's life)
-	mode := []int{0, 0, 1, 1, 2}[rng.Intn(5)]
+	// 3 = orphan-focused (the first pass creates its tasks but the status write that records them
+	// fails; then the Job is killed / deleted / completes elsewhere, often while the pod watch lags)
+	mode := []int{0, 0, 1, 1, 2, 3}[rng.Intn(6)]
 	c.Count(fmt.Sprintf("jc.mode.%d", mode))
 	w.failBias = mode == 1
 	w.kubeletDead = rng.Intn(7) == 0
@@ -1246,6 +1299,28 @@ func jobctlCase(c *Ctx, rng *rand.Rand) {
 		laggy = []string{"pods", "pods", "jobs"}[rng.Intn(3)]
 		c.Count("jc.laggy." + laggy)
 	}
+	if mode == 3 {
+		laggy = []string{"pods", ""}[rng.Intn(2)]
+		w.flush()
+		if k := w.dueCreates(); k > 0 {
+			for i := 0; i < k; i++ {
+				w.faults = append(w.faults, "")
+				c.Emit("jc.fault -", w.state())
+			}
+			f := []string{sim.FaultErr, sim.FaultConflict, sim.FaultTimeout}[rng.Intn(3)]
+			w.faults = append(w.faults, f)
+			c.Emit("jc.fault "+f, w.state())
+			w.work()
+			c.Count("jc.orphan-prefix")
+		}
+		if jj := w.apiJob(); jj != nil && jj.Spec.KillTimestamp == nil && rng.Intn(2) == 0 {
+			t := metav1.NewTime(time.Unix(w.clk.Now().Unix()+int64(rng.Intn(6)), 0))
+			w.api.Mutate("jobs", w.jobKey, func(o runtime.Object) { o.(*execution.Job).Spec.KillTimestamp = &t })
+			w.userEdited = true
+			c.Emit(fmt.Sprintf("jc.kill %d", t.Unix()), w.state())
+			w.monitorJobVersion()
+		}
+	}
 	for step := 0; step < nsteps; step++ {
 		r := rng.Intn(100)
 		if laggy != "" && r >= 45 && r < 52 || laggy != "" && r >= 94 && rng.Intn(4) > 0 {
@@ -1261,7 +1336,7 @@ func jobctlCase(c *Ctx, rng *rand.Rand) {
 			}
 			continue
 		}
-		if jumpP := map[int]int{0: 5, 1: 14, 2: 5}[mode]; rng.Intn(100) < jumpP {
+		if jumpP := map[int]int{0: 5, 1: 14, 2: 5, 3: 8}[mode]; rng.Intn(100) < jumpP {
 			if w.jumpToDeadline() {
 				continue
 			}
@@ -1322,6 +1397,15 @@ func jobctlCase(c *Ctx, rng *rand.Rand) {
 			}
 		case r < 90: // fault
 			f := []string{sim.FaultErr, sim.FaultConflict, sim.FaultTimeout}[rng.Intn(3)]
+			if k := w.dueCreates(); k > 0 && len(w.faults) == 0 && rng.Intn(2) == 0 {
+				// aim at the status write that follows the creates of the next pass: the tasks are
+				// created but stay unrecorded (the crash / fault window C09 is about)
+				for i := 0; i < k; i++ {
+					w.faults = append(w.faults, "")
+					c.Emit("jc.fault -", w.state())
+				}
+				c.Count("jc.fault.aimed-at-status-write")
+			}
 			w.faults = append(w.faults, f)
 			c.Emit("jc.fault "+f, w.state())
 		case r < 92: // foreign pod on the next task name of some index
